@@ -910,6 +910,48 @@ class Flow:
                 v = self.ev(f, a.value if isinstance(a, ast.Starred) else a, env)
                 self.add(('E', site), self.elements(self.elements(v) if isinstance(a, ast.Starred) else v), 'chain')
             return {('list', site): None}
+        if (txt in ('itertools.starmap', 'starmap') and len(e.args) == 2) or \
+                (isinstance(fn, ast.Name) and fn.id == 'map' and len(e.args) >= 2 and not isinstance(e.args[0], ast.Lambda)):
+            # map(g, xs, ys..) / starmap(g, rows): g is called with the elements (of the rows) as arguments
+            fvals = self.ev(f, e.args[0], env)
+            if txt.endswith('starmap'):
+                rows = self.elements(self.ev(f, e.args[1], env))
+                argsets = None
+                for r in rows:
+                    cols = None
+                    if r[0] == 'tuple':
+                        n = max([k[2] for k in self.pts if k[0] == 'T' and k[1] == r[1]] + [-1]) + 1
+                        cols = [dict(self.get(('T', r[1], i))) for i in range(n)]
+                    elif r[0] == 'pair':
+                        cols = [dict(self.get(('K', r[1]))), dict(self.get(('V', r[1])))]
+                    if cols is not None:
+                        argsets = cols if argsets is None else [dict(a, **b) for a, b in zip(argsets, cols)]
+                if argsets is None:
+                    el = self.elements(rows)
+                    argsets = [el, el, el, el]
+            else:
+                argsets = [self.elements(self.ev(f, a, env)) for a in e.args[1:]]
+            site = self.site(f, e, 'list')
+            self.maybe_empty_sites.add(site)
+            for v in fvals:
+                fi = self._func(v[1]) if v[0] in ('fn', 'bound') else None
+                if fi is None:
+                    continue
+                self.called.add(fi)
+                a = fi.node.args
+                params = [x.arg for x in a.posonlyargs + a.args]
+                if v[0] == 'bound' and params:
+                    self.add(('L', fi.qname, params[0]), {('inst', v[2]): None}, 'receiver')
+                    params = params[1:]
+                for p_, vals in zip(params, argsets):
+                    self.add(('L', fi.qname, p_), vals, 'argument through %s @%s' % (txt.split('.')[-1], self.loc(f, e)))
+                if fi.is_generator and not fi.is_contextmanager:
+                    gs = ('list', fi.module.name, fi.node.lineno, -2)
+                    self.add(('E', gs), self.get(('Y', fi.qname)), 'yielded by %s' % fi.name)
+                    self.add(('E', site), {('list', gs): None}, 'map result')
+                else:
+                    self.add(('E', site), self.get(('R', fi.qname)), 'map result')
+            return {('list', site): None}
         if txt == 'functools.reduce' and e.args and isinstance(e.args[0], ast.Lambda):
             lam = e.args[0]
             ps = [a.arg for a in lam.args.args]
